@@ -4,12 +4,15 @@ import (
 	"context"
 	"errors"
 	"fmt"
+	"os"
+	"runtime"
 	"runtime/debug"
 	"sort"
 	"strings"
 	"sync"
 	"time"
 
+	"github.com/PowerDNS/lightningstream/config"
 	"github.com/PowerDNS/lightningstream/lmdbenv/header"
 	"github.com/PowerDNS/lightningstream/snapshot"
 	"github.com/PowerDNS/lightningstream/syncer"
@@ -33,6 +36,7 @@ type loopStore struct {
 	failLists  int
 	stores     int
 	lists      int
+	cleanLists int // List calls made by the instance's cleaner
 	dead       bool // the instance "crashed": nothing it still attempts reaches the bucket
 }
 
@@ -62,9 +66,39 @@ func (f *loopStore) List(ctx context.Context, prefix string) (simpleblob.BlobLis
 		f.mu.Unlock()
 		return nil, errInjected
 	}
-	f.lists++
+	if calledFromCleaner() {
+		f.cleanLists++
+	} else {
+		f.lists++
+	}
 	f.mu.Unlock()
 	return f.Interface.List(ctx, prefix)
+}
+
+func (f *loopStore) Delete(ctx context.Context, name string) error {
+	f.mu.Lock()
+	dead := f.dead
+	f.mu.Unlock()
+	if dead {
+		return context.Canceled
+	}
+	return f.Interface.Delete(ctx, name)
+}
+
+// calledFromCleaner: is cleaner.(*Worker).RunOnce on the call stack?
+func calledFromCleaner() bool {
+	pc := make([]uintptr, 16)
+	n := runtime.Callers(2, pc)
+	frames := runtime.CallersFrames(pc[:n])
+	for {
+		fr, more := frames.Next()
+		if strings.Contains(fr.Function, "cleaner.(*Worker).RunOnce") {
+			return true
+		}
+		if !more {
+			return false
+		}
+	}
 }
 
 type loopInst struct {
@@ -167,6 +201,9 @@ func mkLoop(id string, a []string, env0 *loopInst) *loopInst {
 	l.st = l.fs
 	c, lc := mkConfig(id, native, hack, pad, nil)
 	c.OnlyOnce = once
+	// the instance's cleaner only runs when the harness says so (loop.clean); with both
+	// intervals zero its decisions depend on the order of times only
+	c.Storage.Cleanup = config.Cleanup{Enabled: true, Interval: time.Hour}
 	c.StorageRetryCount = int(u64(a[6]))
 	c.StoragePollInterval = time.Hour // the harness triggers listings itself
 	c.LMDBPollInterval = 50 * time.Microsecond
@@ -184,6 +221,11 @@ func mkLoop(id string, a []string, env0 *loopInst) *loopInst {
 	loopMu.Unlock()
 	return l
 }
+
+// loopAfterRelease, when set, runs once right after a loop has been released from a yield point
+var loopAfterRelease func()
+
+func (l *loopInst) cfgRO() bool { return l.cfgArgs[4] == "1" }
 
 func bucketString() string {
 	ls, err := fleetStore.List(context.Background(), "db__")
@@ -214,13 +256,38 @@ func (l *loopInst) observe() string {
 	return fmt.Sprintf("at %s B%s %s", l.at, bucketString(), d)
 }
 
+// waitIdle waits until the instance's downloaders have done all they can: every one of them is
+// waiting on an empty signal channel (nothing to do), or blocked on a token that is only freed
+// when the sync loop consumes a snapshot.
 func waitIdle(l *loopInst) {
 	deadline := time.Now().Add(2 * time.Second)
+	ok := 0
 	for time.Now().Before(deadline) {
-		if l.r.VerifIdle() {
-			return
+		dlF, _, dcF, _ := l.r.VerifFree()
+		settled, blocked := true, false
+		for _, d := range l.r.VerifDownloaders() {
+			switch {
+			case d[0] == "idle" && d[1] == "nosignal":
+			case d[0] == "wantDl" && dlF == 0:
+				blocked = true
+			case d[0] == "wantDc" && dcF == 0:
+				blocked = true
+			default:
+				settled = false
+			}
 		}
-		time.Sleep(100 * time.Microsecond)
+		if settled {
+			ok++
+			if (!blocked && ok >= 3) || ok >= 25 {
+				return
+			}
+		} else {
+			ok = 0
+		}
+		time.Sleep(50 * time.Microsecond)
+	}
+	if os.Getenv("VERIF_SLOW") != "" {
+		fmt.Fprintln(os.Stderr, "waitIdle timeout", l.id, l.r.VerifDownloaders(), "seen", l.r.VerifLastSeen(), "pending", l.r.VerifPending(), "bucket", bucketString())
 	}
 }
 
@@ -316,6 +383,91 @@ func init() {
 		}
 		return "ok"
 	}
+	// loop.clean <id> <now>: one run of the instance's own cleaner on the shared bucket
+	implOps["loop.clean"] = func(a []string) string {
+		l := loops[a[0]]
+		// whatever the receivers of the fleet have listed is downloaded first: a deletion must
+		// not race a download (the cleaner's keep interval exists for that; it is zero here)
+		for _, o := range loops {
+			if o.started && !o.exited {
+				waitIdle(o)
+			}
+		}
+		before := map[string]bool{}
+		if ls, err := fleetStore.List(context.Background(), "db__"); err == nil {
+			for _, n := range ls.Names() {
+				before[n] = true
+			}
+		}
+		lastSym = u64(a[1])
+		w := beginWindow(u64(a[1]))
+		err := l.s.VerifCleaner().RunOnce(context.Background(), time.Now())
+		w.end()
+		if err != nil {
+			return "err list"
+		}
+		var del []string
+		if ls, err := fleetStore.List(context.Background(), "db__"); err == nil {
+			for _, n := range ls.Names() {
+				delete(before, n)
+			}
+		}
+		for n := range before {
+			if ni, err := snapshot.ParseName(n); err == nil {
+				del = append(del, fmt.Sprintf("%s@%d", ni.InstanceID, realToSym(uint64(ni.Timestamp.UnixNano()))))
+			}
+		}
+		sort.Strings(del)
+		if len(del) == 0 {
+			return "ok deleted=-"
+		}
+		return "ok deleted=" + strings.Join(del, ",")
+	}
+	// loop.goheld <id> <next|?> <fails> <now> <ops>: the application has a write transaction open
+	// (the ops applied, not committed) when the loop is released at its top, and commits while
+	// the loop waits for the LMDB write lock: the commit happens before Lightning Stream's next
+	// transaction although the loop is already on its way. At other yield points the next step
+	// does not start with a write transaction and the commit simply comes first.
+	implOps["loop.goheld"] = func(a []string) string {
+		l := loops[a[0]]
+		finish := func(out string) string {
+			if strings.HasPrefix(rewrittenLine, "loop.go ") {
+				rewrittenLine = "loop.goheld " + strings.TrimPrefix(rewrittenLine, "loop.go ") + " " + a[4]
+			}
+			return out
+		}
+		if l.at != "loop.top" || !l.started || l.exited {
+			implOps["loop.app"]([]string{a[0], a[4]})
+			return finish(implOps["loop.go"](a[:4]))
+		}
+		opened := make(chan struct{})
+		hold := make(chan struct{})
+		done := make(chan string, 1)
+		appBeforeCommit = func() { close(opened); <-hold }
+		go func() {
+			insts["__loopheld"] = &l.implInst
+			done <- implOps["env.app"]([]string{"__loopheld", a[4]})
+		}()
+		select {
+		case <-opened:
+		case out := <-done: // the transaction failed before it got that far
+			appBeforeCommit = nil
+			delete(insts, "__loopheld")
+			_ = out
+			return finish(implOps["loop.go"](a[:4]))
+		}
+		appBeforeCommit = nil
+		loopAfterRelease = func() {
+			time.Sleep(2 * time.Millisecond) // the loop reaches env.Update and waits for the lock
+			close(hold)
+			if out := <-done; strings.HasPrefix(out, "ok") {
+				trackApp(l, a[4])
+			}
+			delete(insts, "__loopheld")
+		}
+		defer func() { loopAfterRelease = nil }()
+		return finish(implOps["loop.go"](a[:4]))
+	}
 	// loop.go <id> <next|?> <fails> <now>
 	implOps["loop.go"] = func(a []string) string {
 		l := loops[a[0]]
@@ -334,6 +486,7 @@ func init() {
 		t.txnAtRelease = lastTxnID(l.env)
 		lastSym = u64(a[3])
 		w := beginWindow(u64(a[3]))
+		firstSegment := !l.started
 		if !l.started {
 			l.started = true
 			if _, _, err := newestBlob(fleetStore, l.id); err == nil {
@@ -366,6 +519,9 @@ func init() {
 			}
 			l.releaseCh <- struct{}{}
 		}
+		if loopAfterRelease != nil {
+			loopAfterRelease()
+		}
 		select {
 		case p := <-l.yieldCh:
 			l.at = p
@@ -375,6 +531,21 @@ func init() {
 		case <-time.After(5 * time.Second):
 			w.end()
 			return "err hang"
+		}
+		if firstSegment && !l.cfgRO() {
+			// the cleaner goroutine started with the loop runs once at once: wait for it, so
+			// that it happens in this segment (the bucket does not change during it)
+			deadline := time.Now().Add(time.Second)
+			for time.Now().Before(deadline) {
+				l.fs.mu.Lock()
+				n := l.fs.cleanLists
+				l.fs.mu.Unlock()
+				if n >= 1 {
+					break
+				}
+				time.Sleep(50 * time.Microsecond)
+			}
+			time.Sleep(300 * time.Microsecond) // the run itself (first run: bookkeeping only)
 		}
 		if l.at == "loop.top" && !l.bgListed {
 			// the receiver's own goroutine lists the bucket once when it is started (just before the
